@@ -294,6 +294,7 @@ def run(chk):
     r7_termination(chk, repo, mon)
     r8_numbering(chk, repo, mon)
     r9_forwarding(chk, repo)
+    r10_register_before_start(chk, repo)
 
 
 # ------------------------------------------------------------------------------------ R1
@@ -1046,8 +1047,33 @@ def _output_names(f):
     """Names the output-key collection of divide_outputs goes by (the parameter)."""
     return {"outputs"} & set(f.params)
 
+# ------------------------------------------------------------------------------------ R10
+def r10_register_before_start(chk, repo):
+    chk.describe("C05.R10", "senders, reader threads and plain subscribers of a mailbox are all registered before it is started: a subscriber that registers after start() can miss messages that every earlier subscriber has already read (and that were therefore discarded)")
+    R = "C05.R10"
+    n = 0
+    for f in repo.functions:
+        if not (f.path.startswith("strax/processors/") or f.path in ("strax/storage/file_rechunker.py", "strax/mailbox.py")):
+            continue
+        starts = [c for c in calls_in(f.node) if isinstance(c.func, ast.Attribute) and c.func.attr == "start" and not c.args]
+        regs = [c for c in calls_in(f.node) if isinstance(c.func, ast.Attribute) and c.func.attr in ("subscribe", "add_reader", "add_sender")]
+        if not starts or not regs or (f.cls is not None and f.cls.name == "Mailbox"):
+            continue
+        cfg = cfg_of(f)
+        sn = [cfg.node_of(stmt_of(c)) for c in starts]
+        sn = [x for x in sn if x is not None]
+        after = cfg.reachable(sn, "n") - set(sn)
+        for c in regs:
+            n += 1
+            node = cfg.node_of(stmt_of(c))
+            chk.check(node not in after, R, f, stmt_of(c), f"`{norm(c)[:60]}` can run after the mailbox was started: the late subscriber waits for a message the other subscribers have already consumed and discarded",
+                      site_text=f"{f.qualname}: `{norm(c.func)}` before start()", site={"function": f.qualname, "call": norm(c.func)})
+    chk.floor(R, "registrations next to a start() call", n, 3)
+
 
 WITNESSES = [
+    W("progress subscriber registers after start", "C05.R10", "strax/storage/file_rechunker.py",
+      "final_generator = mailbox.subscribe()\n\n    # Make sure everything is added to the mailbox before starting!\n    mailbox.start()\n    for _ in load_wrapper(final_generator):", "mailbox.start()\n    for _ in load_wrapper(mailbox.subscribe()):"),
     W("sender drops every item", "C05.R9", MAILBOX,
       "try:\n                    self.send(x)\n                except Exception as e:", "try:\n                    pass\n                except Exception as e:"),
     W("sender forwards only truthy items", "C05.R9", MAILBOX,
